@@ -176,7 +176,7 @@ def check_C03(tier, seed):
     os.remove(vec)
     q = tier == "quick"
     run_pipeline(res, binary, "sweep", gen_lines=gens.gen_c03_sweep(rng, 64 if q else 300), nshards=8 if q else 16)
-    run_pipeline(res, binary, "extreme", gen_lines=gens.gen_c03_extreme(rng, 150 if q else 3000), nshards=4 if q else 16)
+    run_pipeline(res, binary, "extreme", gen_lines=itertools.chain(gens.gen_c03_extreme(rng, 150 if q else 3000), gens.gen_project_sec60(rng, 60 if q else 1200)), nshards=4 if q else 16)
     run_pipeline(res, binary, "leap-only", gen_lines=events_of(gens.gen_leap_only_zones(rng, 30 if q else 600), gens.gen_signed_leap_run_zones(rng, 6 if q else 200)), nshards=2 if q else 8)
     # 'at or after the last transition: whatever the trailing rule prescribes' - tables (often on the leap scale) handing over to a DST rule
     run_pipeline(res, binary, "table-then-rule", gen_lines=events_of(*(gens.gen_rule_zone_session(rng, gens.corpus_rule(i) if i % 2 else gens.rand_rule(rng), with_table=True, do_find=False, nprobe=40, leaps=(i % 3 != 0))
